@@ -1150,6 +1150,11 @@ func (p *Prog) xListOp(r int, class string) {
 		return
 	}
 	k := pickOf(p.r, xKinds)
+	if n := p.m.list(r).Count(); n > 0 && p.r.chance(0.7) {
+		if t := p.m.list(r).TypeOf(p.r.Intn(n)); t >= at.TypeObject {
+			k = t // mostly a kind the list really holds
+		}
+	}
 	pr, pk := p.randPred()
 	switch class {
 	case "filter":
@@ -1201,6 +1206,21 @@ func (p *Prog) xListOp(r int, class string) {
 
 func (p *Prog) xObjOp(r int, class string) {
 	k := pickOf(p.r, xKinds)
+	// mostly a kind the object really holds (a typed variant on a kind that is absent does nothing)
+	if p.r.chance(0.7) {
+		var present []at.Type
+		seen := map[at.Type]bool{}
+		for _, x := range p.m.object(r).Dict() {
+			if t := at.Type(kindCodeOf(x)); t >= at.TypeObject && !seen[t] {
+				seen[t] = true
+				present = append(present, t)
+			}
+		}
+		sort.Slice(present, func(i, j int) bool { return present[i] < present[j] })
+		if len(present) > 0 {
+			k = pickOf(p.r, present)
+		}
+	}
 	switch class {
 	case "map":
 		f := pickOf(p.r, mapfs)
@@ -1698,11 +1718,17 @@ func xProgramBody(p *Prog, r *R, prof string) {
 							nan = nan || math.IsNaN(f)
 						}
 					}
+					// the extremes before and after (a result remembered across the rearrangement would show)
+					p.do(&Op{Name: "XLAgg", R: l, Agg: "AMin"})
+					p.do(&Op{Name: "XLAgg", R: l, Agg: "AMax"})
+					p.do(&Op{Name: "XLAgg", R: l, Agg: pickOf(r, []string{"AIntMin", "AIntMax", "ASum", "AIntSum"})})
 					if (t0 == at.TypeInt || t0 == at.TypeFloat) && zeros != 3 && !nan && r.chance(0.6) {
 						p.do(&Op{Name: "LSort", R: l})
 					} else {
 						p.do(&Op{Name: "LReverse", R: l})
 					}
+					p.do(&Op{Name: "XLAgg", R: l, Agg: "AMin"})
+					p.do(&Op{Name: "XLAgg", R: l, Agg: "AMax"})
 				}
 				p.xListOp(l, "agg")
 			}
